@@ -116,7 +116,7 @@ def run_case(case, ctx):
         score = X[:, 0] + (X[:, -1] if d > 1 else 0) * 0.7 + rng.randn(n) * 0.3
         yi = numpy.digitize(score, numpy.quantile(score, numpy.linspace(0, 1, len(lab) + 1)[1:-1]))
         y = numpy.array(lab)[yi]
-        base = ["logistic", "dummy-clf", "tree-clf"][rng.randint(3)]
+        base = ["logistic", "dummy-clf", "tree-clf", "cost-logistic"][rng.randint(4)]
     else:
         y = X[:, 0] * 2 + numpy.sin(3 * X[:, -1]) + rng.randn(n) * 0.1
         base = ["linear", "dummy-reg", "tree-reg"][rng.randint(3)]
